@@ -23,6 +23,19 @@ def _dt(mode):
     return int if mode == "int" else float
 
 
+LAYOUTS = ["C", "C", "F", "strided"]
+
+
+def as_layout(arr, layout):
+    """Same values and shape in a different memory layout (Fortran order / non-contiguous view)."""
+    arr = np.asarray(arr)
+    if layout == "F" and arr.ndim >= 2:
+        return np.asfortranarray(arr)
+    if layout == "strided" and arr.ndim >= 1:
+        return np.repeat(arr, 2, axis=-1)[..., ::2]
+    return arr
+
+
 def _same(a, b):
     a, b = np.asarray(a), np.asarray(b)
     return a.shape == b.shape and np.array_equal(a, b, equal_nan=True)
@@ -39,7 +52,8 @@ def _vec_cases(draw):
     n = gen.shape_size(shape)
     tg = draw(st.lists(gen.target_values(pops), min_size=n, max_size=n))
     return dict(s=s, thr=thr, tg=dict(shape=list(shape), flat=tg), cfg=draw(gen.CONFIG),
-                scalar_kind=draw(st.sampled_from(["py", "np", "0d", "int"])))
+                scalar_kind=draw(st.sampled_from(["py", "np", "0d", "int"])),
+                layout=draw(st.sampled_from(LAYOUTS)))
 
 
 def _scalar(x, kind):
@@ -61,7 +75,7 @@ def check_vectorised(case):
     neg = np.asarray(s["neg"], dtype=_dt(s["mode"]))
     o = Scores(pos, neg, nb_easy_pos=s["ep"], nb_easy_neg=s["en"], score_class=sc, equal_class=ec)
     X = tuple(case["thr"]["shape"])
-    thr = gen.np_array(case["thr"]["flat"], X)
+    thr = as_layout(gen.np_array(case["thr"]["flat"], X), case.get("layout", "C"))
     thr0 = thr.copy()
     kind = case["scalar_kind"]
     # confusion matrices
@@ -86,7 +100,7 @@ def check_vectorised(case):
     require(np.array_equal(thr, thr0, equal_nan=True), "vec:mutated-threshold", "")
     # threshold setting
     Y = tuple(case["tg"]["shape"])
-    tg = gen.np_array(case["tg"]["flat"], Y)
+    tg = as_layout(gen.np_array(case["tg"]["flat"], Y), case.get("layout", "C"))
     tg0 = tg.copy()
     for m in METRICS:
         if not relevant_scores(m, s["pos"], s["neg"]):
@@ -120,7 +134,7 @@ def _pw_cases(draw):
     labs = draw(st.lists(st.integers(0, 1), min_size=n, max_size=n))
     thr = [x / 4 for x in draw(st.lists(st.integers(-9, 9), min_size=k, max_size=k))]
     return dict(sshape=list(sshape), tshape=list(tshape), scores=vals, labels=labs, thr=thr,
-                cfg=draw(gen.CONFIG))
+                cfg=draw(gen.CONFIG), layouts=[draw(st.sampled_from(LAYOUTS)) for _ in range(3)])
 
 
 def check_pointwise_shape(case):
@@ -130,9 +144,10 @@ def check_pointwise_shape(case):
 
     ss, ts = tuple(case["sshape"]), tuple(case["tshape"])
     sc, ec = case["cfg"]
-    scores = np.asarray(case["scores"], dtype=float).reshape(ss)
-    labels = np.asarray(case["labels"], dtype=int).reshape(ss)
-    thr = np.asarray(case["thr"], dtype=float).reshape(ts)
+    lay = case.get("layouts", ["C", "C", "C"])
+    scores = as_layout(np.asarray(case["scores"], dtype=float).reshape(ss), lay[0])
+    labels = as_layout(np.asarray(case["labels"], dtype=int).reshape(ss), lay[1])
+    thr = as_layout(np.asarray(case["thr"], dtype=float).reshape(ts), lay[2])
     s0, l0, t0 = scores.copy(), labels.copy(), thr.copy()
     pw = pointwise_cm(labels, scores, thr, score_class=sc, equal_class=ec)
     require(pw.shape == ss + ts + (2, 2), "vec:pointwise-shape",
@@ -147,8 +162,10 @@ def check_pointwise_shape(case):
                     f"score {x!r} label {lab} t={t!r} {sc}/{ec}: {pf[i, j].tolist()}")
     require(np.array_equal(scores, s0) and np.array_equal(labels, l0) and np.array_equal(thr, t0),
             "vec:mutated-input", "pointwise_cm")
-    return dict(nontrivial=len(ss) + len(ts) >= 2 or 0 in ss + ts,
-                labels=["size0-axis"] if 0 in ss + ts else [])
+    labels_ = ["size0-axis"] if 0 in ss + ts else []
+    if any(x != "C" for x in lay) and (len(ss) >= 2 or len(ts) >= 2):
+        labels_.append("non-C-layout")
+    return dict(nontrivial=len(ss) + len(ts) >= 2 or 0 in ss + ts, labels=labels_)
 
 
 # ------------------------------------------------------------------ clause: history (machine)
